@@ -90,7 +90,7 @@ def finish(ctx):
         if nviol > 40:
             continue
         os.makedirs(rdir, exist_ok=True)
-        path = os.path.join(rdir, "%s-%s.json" % (v["id"], v["clause"]))
+        path = os.path.join(rdir, "%s-%s.json" % (str(v["id"]).replace("/", "_").replace("#", "_"), v["clause"]))
         with open(path, "w") as fh:
             json.dump({"property": ctx.pid, "record": v["id"], "clause": v["clause"], "info": v["info"],
                        "payload": v["payload"]}, fh, indent=1)
